@@ -162,6 +162,7 @@ func genC07(rng *rand.Rand, tier string) *sim.Plan {
 		g.Ops = append(g.Ops, sim.Op{K: "subscribe", C: gap, Subs: []mqttc.Sub{{Filter: pick(rng, []string{t, "r/#", "#"}), QoS: byte(rng.IntN(3))}}, Delay: sim.Us(rng.IntN(40))})
 		p.Phases = append(p.Phases, g)
 	}
+	maybeRedis(rng, p, 0.2)
 	return p
 }
 
